@@ -168,6 +168,19 @@ func (jenny Schema) formatType(typeDef ast.Type) Definition {
 	return orderedmap.New[string, any]()
 }
 
+// formatElementType formats the type of the items of a list, of the values of
+// a map or of a branch of a union, with the default it carries: unlike a
+// struct field or an object, nothing else writes it.
+func (jenny Schema) formatElementType(typeDef ast.Type) Definition {
+	definition := jenny.formatType(typeDef)
+
+	if typeDef.Default != nil && !typeDef.IsRef() {
+		definition.Set("default", typeDef.Default)
+	}
+
+	return definition
+}
+
 func (jenny Schema) formatScalar(typeDef ast.Type) Definition {
 	definition := orderedmap.New[string, any]()
 
@@ -317,7 +330,7 @@ func (jenny Schema) formatArray(typeDef ast.Type) Definition {
 	definition := orderedmap.New[string, any]()
 
 	definition.Set("type", "array")
-	definition.Set("items", jenny.formatType(typeDef.AsArray().ValueType))
+	definition.Set("items", jenny.formatElementType(typeDef.AsArray().ValueType))
 
 	return definition
 }
@@ -326,14 +339,14 @@ func (jenny Schema) formatMap(typeDef ast.Type) Definition {
 	definition := orderedmap.New[string, any]()
 
 	definition.Set("type", "object")
-	definition.Set("additionalProperties", jenny.formatType(typeDef.AsMap().ValueType))
+	definition.Set("additionalProperties", jenny.formatElementType(typeDef.AsMap().ValueType))
 
 	return definition
 }
 
 func (jenny Schema) formatDisjunction(typeDef ast.Type) Definition {
 	definition := orderedmap.New[string, any]()
-	branches := tools.Map(typeDef.AsDisjunction().Branches, jenny.formatType)
+	branches := tools.Map(typeDef.AsDisjunction().Branches, jenny.formatElementType)
 
 	definition.Set("anyOf", branches)
 
